@@ -1514,7 +1514,7 @@ func (w *world) summarise(completed bool) {
 		// were written): decide that clause separately, so that a mere new/old
 		// inversion between reads that overlap an unacknowledged write is not
 		// called a violation.
-		akind, anomaly := lostWrite(init, strictOps)
+		akind, anomaly, from, to := lostWrite(init, strictOps)
 		if anomaly == "" {
 			c.Count("nonlinearizable_but_no_lost_write", 1)
 			c.Count("nonlinearizable_but_no_lost_write_"+w.stratum, 1)
@@ -1523,9 +1523,42 @@ func (w *world) summarise(completed bool) {
 		}
 		class := "lost-write/" + w.stratum
 		note := ""
+		// [from,to] = from the invocation of the write that was lost to the
+		// return of the read that missed it
+		attrOverlap := false
+		for _, o := range ops {
+			if o.Input.(in).Kind == 'B' && o.Call < to && from < o.Return {
+				attrOverlap = true
+			}
+		}
+		rmwLegal := false
+		if hasAttr {
+			switch vhist.Check(rmwModel(init), ops, 30*time.Second) {
+			case vhist.Ok:
+				rmwLegal = true
+			case vhist.Unknown:
+				c.Inconclusive(1)
+				continue
+			}
+		}
 		switch {
+		case w.stratum == "dirflush" && w.orphans.Load() > 0:
+			class = "lost-write/dirflush-orphaned-inode"
+			note = fmt.Sprintf(" (%d operations of this run finished on an inode object that Lookup no longer returns: Directory.Flush dropped the cache entry under them)", w.orphans.Load())
+		case rmwLegal:
+			class = "lost-write/file-setattr-rmw"
+			note = " (the history is legal once File.SetMode/SetModTime is modelled as the non-atomic read-modify-write of the file node that it is)"
 		case akind == "stale:"+whatPublishedRoot:
+			// the file's own node is current; the root handed to the publish
+			// function is not. Known triggers: a setattr that propagates its
+			// stale snapshot to the parent after the write did.
 			class = "lost-write/published-root-stale/" + w.stratum
+			switch {
+			case attrOverlap:
+				class = "lost-write/published-root-stale/file-setattr-overlap"
+			case w.stratum == "dirattr" && w.auxOverlaps(from, to):
+				class = "lost-write/published-root-stale/dir-setattr-overlap"
+			}
 			note = " (the file's own node is current; the root handed to the publish function is not)"
 		case akind == "future:"+whatFlushPathFile || akind == "phantom:"+whatFlushPathFile:
 			// FlushPath(file) returns the File's live node object and the
@@ -1534,18 +1567,6 @@ func (w *world) summarise(completed bool) {
 			// was changed afterwards.
 			class = "retained-node-mutated/" + w.stratum
 			note = " (the node object returned by MFS was read after the call had returned; its content was changed by a write that started later)"
-		case hasAttr:
-			switch vhist.Check(rmwModel(init), ops, 30*time.Second) {
-			case vhist.Ok:
-				class = "lost-write/file-setattr-rmw"
-				note = " (the history is legal once File.SetMode/SetModTime is modelled as the non-atomic read-modify-write of the file node that it is)"
-			case vhist.Unknown:
-				c.Inconclusive(1)
-				continue
-			}
-		case w.stratum == "dirflush" && w.orphans.Load() > 0:
-			class = "lost-write/dirflush-orphaned-inode"
-			note = fmt.Sprintf(" (%d operations of this run finished on an inode object that Lookup no longer returns: Directory.Flush dropped the cache entry under them)", w.orphans.Load())
 		}
 		for _, l := range historyLines(ops) {
 			k.Logf("HIST %s %s", key, l)
@@ -1581,7 +1602,7 @@ func historyLines(ops []porcupine.Operation) []string {
 // the read returned, and (iii) is not stale: no write was acknowledged entirely
 // after v's write (was acknowledged) and entirely before the read began.
 // Otherwise it describes the first offending read.
-func lostWrite(init string, ops []porcupine.Operation) (kind, msg string) {
+func lostWrite(init string, ops []porcupine.Operation) (kind, msg string, from, to int64) {
 	type wr struct {
 		val       string
 		call, ret int64 // ret = maxInt64 when never acknowledged
@@ -1625,7 +1646,7 @@ func lostWrite(init string, ops []porcupine.Operation) (kind, msg string) {
 			}
 			if !okSize {
 				return "size", fmt.Sprintf("File.Size [%d,%d] by c%d returned %d, the length of no value that may be current (last write acknowledged before it: %q by c%d [%d,%d], length %d)",
-					r.Call, r.Return, i.Client, ov.N, short(last.val), last.client, last.call, last.ret, len(last.val))
+					r.Call, r.Return, i.Client, ov.N, short(last.val), last.client, last.call, last.ret, len(last.val)), last.call, r.Return
 			}
 			continue
 		}
@@ -1637,13 +1658,13 @@ func lostWrite(init string, ops []porcupine.Operation) (kind, msg string) {
 		}
 		switch {
 		case src == nil:
-			return "phantom:" + i.What, fmt.Sprintf("%s [%d,%d] by c%d returned %q (%d bytes), which no write of the history carries", i.What, r.Call, r.Return, i.Client, short(ov.Val), len(ov.Val))
+			return "phantom:" + i.What, fmt.Sprintf("%s [%d,%d] by c%d returned %q (%d bytes), which no write of the history carries", i.What, r.Call, r.Return, i.Client, short(ov.Val), len(ov.Val)), last.call, r.Return
 		case src.call >= r.Return:
-			return "future:" + i.What, fmt.Sprintf("%s [%d,%d] by c%d returned %q before its write [%d,%d] was invoked", i.What, r.Call, r.Return, i.Client, short(ov.Val), src.call, src.ret)
+			return "future:" + i.What, fmt.Sprintf("%s [%d,%d] by c%d returned %q before its write [%d,%d] was invoked", i.What, r.Call, r.Return, i.Client, short(ov.Val), src.call, src.ret), last.call, r.Return
 		case !admissible(*src):
 			return "stale:" + i.What, fmt.Sprintf("lost write: %s [%d,%d] by c%d returned %q (written by c%d [%d,%d]) although write %q by c%d [%d,%d] was invoked after that write had been acknowledged and was itself acknowledged before the read began",
-				i.What, r.Call, r.Return, i.Client, short(ov.Val), src.client, src.call, src.ret, short(last.val), last.client, last.call, last.ret)
+				i.What, r.Call, r.Return, i.Client, short(ov.Val), src.client, src.call, src.ret, short(last.val), last.client, last.call, last.ret), last.call, r.Return
 		}
 	}
-	return "", ""
+	return "", "", 0, 0
 }
